@@ -42,6 +42,8 @@ fn tree() -> TreeSpec {
         ObjSpec::aspa("bigB1", BIG_B, &(1..=half).collect::<Vec<_>>()),
         ObjSpec::aspa("bigB2", BIG_B, &(half..=max).collect::<Vec<_>>()),
         ObjSpec::router("rk", 64496, 0),
+        // one router certificate for three AS numbers
+        ObjSpec { name: "rkm".into(), kind: ObjKind::RouterMulti(vec![64520, 64521, 64522], 1), fault: None, not_after: None },
     ];
     let mut rej = CaSpec::new("rej", 1, "rej.example", "repo");
     rej.v4 = vec![(Ipv4Addr::new(10, 9, 0, 0), 16)];
@@ -56,6 +58,8 @@ fn tree() -> TreeSpec {
         ObjSpec::roa("onlyb", 64498, "10.3.0.0", 16, 16),
         ObjSpec::aspa("aspa3", 64500, &[9]),                    // same customer across TALs
         ObjSpec::router("rk2", 64496, 0),                       // same key again
+        // overlaps the other TAL's certificate in one number
+        ObjSpec { name: "rkm2".into(), kind: ObjKind::RouterMulti(vec![64522, 64523], 1), fault: None, not_after: None },
     ];
     TreeSpec { tals: vec![
         TalSpec { name: "alpha".into(), ta_uri: "rsync://ta0.example/repo/ta0.cer".into(), ca: ta, wrong_key: false, https_uri: None },
@@ -64,15 +68,40 @@ fn tree() -> TreeSpec {
 }
 
 #[derive(Clone, Copy, Debug, Eq, PartialEq)]
-pub enum Slurm { None, PrefixFilter, AsnFilter, DupAssertion, NewAssertion, FilterAndAssertion }
-const SLURMS: [Slurm; 6] = [Slurm::None, Slurm::PrefixFilter, Slurm::AsnFilter, Slurm::DupAssertion, Slurm::NewAssertion, Slurm::FilterAndAssertion];
+pub enum Slurm { None, PrefixFilter, AsnFilter, DupAssertion, NewAssertion, FilterAndAssertion, KeyFilterAsn, KeyFilterSkiAsn, KeyFilterSki }
+const SLURMS: [Slurm; 9] = [Slurm::None, Slurm::PrefixFilter, Slurm::AsnFilter, Slurm::DupAssertion, Slurm::NewAssertion, Slurm::FilterAndAssertion,
+    Slurm::KeyFilterAsn, Slurm::KeyFilterSkiAsn, Slurm::KeyFilterSki];
+
+/// The AS numbers the key filters name: the lowest and the middle one of
+/// the three-number router certificate.
+const KEY_FILTER_ASN: u32 = 64520;
+const KEY_FILTER_SKI_ASN: u32 = 64521;
+
+/// The key identifier (SLURM spelling) of the router key published for `asn`.
+fn ski_of(image: &Image, asn: u32) -> (rpki::crypto::KeyIdentifier, String) {
+    use base64::Engine;
+    for t in &image.truth {
+        if let Payload::RouterKey(k) = &t.payload {
+            if k.asn == Asn::from_u32(asn) {
+                return (k.key_identifier, base64::engine::general_purpose::URL_SAFE_NO_PAD.encode(k.key_identifier.as_slice()))
+            }
+        }
+    }
+    panic!("no router key for AS{asn}")
+}
 
 #[derive(Clone, Debug)]
 pub struct Opt { pub v4: Option<u8>, pub v6: Option<u8>, pub unsafe_vrps: FilterPolicy, pub bgpsec: bool, pub aspa: bool, pub slurm: Slurm }
 
-fn slurm_json(s: Slurm) -> String {
+fn slurm_json(s: Slurm, image: &Image) -> String {
+    let kf = match s {
+        Slurm::KeyFilterAsn => format!(r#"{{"asn": {KEY_FILTER_ASN}}}"#),
+        Slurm::KeyFilterSkiAsn => format!(r#"{{"SKI": "{}", "asn": {KEY_FILTER_SKI_ASN}}}"#, ski_of(image, KEY_FILTER_SKI_ASN).1),
+        Slurm::KeyFilterSki => format!(r#"{{"SKI": "{}"}}"#, ski_of(image, 64496).1),
+        _ => String::new()
+    };
     let (pf, pa, ba) = match s {
-        Slurm::None => ("", "", ""),
+        Slurm::None | Slurm::KeyFilterAsn | Slurm::KeyFilterSkiAsn | Slurm::KeyFilterSki => ("", "", ""),
         Slurm::PrefixFilter => (r#"{"prefix": "10.3.0.0/16", "asn": 64498}"#, "", ""),
         Slurm::AsnFilter => (r#"{"asn": 64497}"#, "", ""),
         Slurm::DupAssertion => ("", r#"{"asn": 64496, "prefix": "10.0.0.0/16", "maxPrefixLength": 16}"#, ""),
@@ -80,7 +109,7 @@ fn slurm_json(s: Slurm) -> String {
             r#"{"asn": 65551, "SKI": "AQIDBAUGBwgJCgsMDQ4PEBESExQ", "routerPublicKey": "a2V5Ynl0ZXM"}"#),
         Slurm::FilterAndAssertion => (r#"{"prefix": "10.3.0.0/16"}"#, r#"{"asn": 64498, "prefix": "10.3.0.0/16", "maxPrefixLength": 16}"#, ""),
     };
-    format!(r#"{{"slurmVersion": 1, "validationOutputFilters": {{"prefixFilters": [{pf}], "bgpsecFilters": []}},
+    format!(r#"{{"slurmVersion": 1, "validationOutputFilters": {{"prefixFilters": [{pf}], "bgpsecFilters": [{kf}]}},
         "locallyAddedAssertions": {{"prefixAssertions": [{pa}], "bgpsecAssertions": [{ba}]}}}}"#)
 }
 
@@ -97,7 +126,9 @@ pub fn options() -> Vec<Opt> {
 }
 
 /// The reference: the statement's set algebra over what was published.
-fn expected(image: &Image, o: &Opt) -> (BTreeSet<RouteOrigin>, BTreeSet<Vec<u8>>, BTreeMap<u32, BTreeSet<u32>>) {
+type KeyTriple = (u32, Vec<u8>, Vec<u8>);
+
+fn expected(image: &Image, o: &Opt) -> (BTreeSet<RouteOrigin>, BTreeSet<KeyTriple>, BTreeMap<u32, BTreeSet<u32>>) {
     let mut origins = BTreeSet::new();
     let mut keys = BTreeSet::new();
     let mut aspas: BTreeMap<u32, BTreeSet<u32>> = BTreeMap::new();
@@ -117,7 +148,15 @@ fn expected(image: &Image, o: &Opt) -> (BTreeSet<RouteOrigin>, BTreeSet<Vec<u8>>
                 if drop { continue }
                 origins.insert(*or);
             }
-            Payload::RouterKey(k) => if o.bgpsec { keys.insert(k.key_info.as_slice().to_vec()); },
+            Payload::RouterKey(k) => if o.bgpsec {
+                let drop = match o.slurm {
+                    Slurm::KeyFilterAsn => k.asn == Asn::from_u32(KEY_FILTER_ASN),
+                    Slurm::KeyFilterSkiAsn => k.asn == Asn::from_u32(KEY_FILTER_SKI_ASN) && k.key_identifier == ski_of(image, KEY_FILTER_SKI_ASN).0,
+                    Slurm::KeyFilterSki => k.key_identifier == ski_of(image, 64496).0,
+                    _ => false
+                };
+                if !drop { keys.insert((k.asn.into_u32(), k.key_identifier.as_slice().to_vec(), k.key_info.as_slice().to_vec())); }
+            },
             Payload::Aspa(a) => if o.aspa {
                 aspas.entry(a.customer.into_u32()).or_default().extend(a.providers.iter().map(|x| x.into_u32()));
             },
@@ -127,7 +166,7 @@ fn expected(image: &Image, o: &Opt) -> (BTreeSet<RouteOrigin>, BTreeSet<Vec<u8>>
         Slurm::DupAssertion => { origins.insert(data::v4(10, 0, 0, 0, 16, 16, 64496)); }
         Slurm::NewAssertion => {
             origins.insert(data::v4(203, 0, 113, 0, 30, 32, 65550));
-            keys.insert(b"keybytes".to_vec());
+            keys.insert((65551, (1..=20u8).collect(), b"keybytes".to_vec()));
         }
         Slurm::FilterAndAssertion => { origins.insert(data::v4(10, 3, 0, 0, 16, 16, 64498)); }
         _ => { }
@@ -146,7 +185,7 @@ pub fn run_case(image: &Image, dir: std::path::PathBuf, o: &Opt) -> Result<Strin
     config.unsafe_vrps = o.unsafe_vrps;
     config.enable_bgpsec = o.bgpsec;
     config.enable_aspa = o.aspa;
-    let exc = LocalExceptions::from_json(&slurm_json(o.slurm), true)
+    let exc = LocalExceptions::from_json(&slurm_json(o.slurm, image), true)
         .map_err(|e| ("slurm".to_string(), e.to_string()))?;
     let out = etree::run(&config, false, &exc).map_err(|e| ("run-failed".to_string(), e))?;
     if let Some(d) = out.duplicate {
@@ -161,9 +200,12 @@ pub fn run_case(image: &Image, dir: std::path::PathBuf, o: &Opt) -> Result<Strin
         let class = if !extra.is_empty() { "origin-should-be-filtered" } else { "origin-missing" };
         return Err((class.into(), format!("{o:?}: extra origins {extra:?}, missing {missing:?}")))
     }
-    let gk: BTreeSet<Vec<u8>> = out.data.keys.iter().map(|k| k.key_info.as_slice().to_vec()).collect();
+    let gk: BTreeSet<KeyTriple> = out.data.keys.iter().map(|k| {
+        (k.asn.into_u32(), k.key_identifier.as_slice().to_vec(), k.key_info.as_slice().to_vec())
+    }).collect();
     if gk != ek || out.data.keys.len() != ek.len() {
-        return Err(("router-keys".into(), format!("{o:?}: {} router keys served, expected {}", out.data.keys.len(), ek.len())))
+        let fmt = |s: &BTreeSet<KeyTriple>| s.iter().map(|k| format!("AS{}/{:02x}{:02x}", k.0, k.1[0], k.1[1])).collect::<Vec<_>>();
+        return Err(("router-keys".into(), format!("{o:?}: router keys served {:?}, expected {:?}", fmt(&gk), fmt(&ek))))
     }
     let ga: BTreeMap<u32, BTreeSet<u32>> = out.data.aspas.iter().map(|(c, p)| {
         (c.into_u32(), p.iter().map(|x| x.into_u32()).collect())
